@@ -18,6 +18,15 @@
     * `srcHist rows nb` = the regenerated `util.bindown` on 1-D data, with `np.histogram` instantiated by its documented
       behaviour (`npHistogram`, `npHistogramW`: the ASSUMPTION of the tie); tie hypothesis `nb ≠ []`.
     * `Gen.SrcC05.nativebinner_bindown`.
+    * `srcHistN rows nb` = the regenerated `util.bindown` on ONE ROW of 2-D data (the `np.digitize` path: the leading axis is
+      lifted by the translator, the code is point-wise in it), `np.digitize(…, right=True)` instantiated by numpy's
+      evaluation for increasing edges (`npDigitize`: the number of edges below the point — the ASSUMPTION of the tie);
+      `= histMeanN` for strictly increasing edges (`srcHistN_eq`; tie hypotheses `nb ≠ []`, `(histEdges nb).Pairwise (<)`);
+      the `histMeanN` conjuncts of `hist_mean` / `hist_perm_native` are restated (`src_hist_mean_nd`,
+      `src_hist_perm_native_nd`).
+    * `Gen.SrcC05.fluxbinner_bindown_s`: `FluxBinner.bindown` called with ONE number as `grid_width`; it is `srcBindown true`
+      of the rows with every width set to that number (`src_bindown_scalar_eq`), so every statement about `srcBindown true`
+      applies.
   The spectrum of the source is always the column `Row.s`, the error the column `Row.e` (the model theorems quantify over
   an arbitrary `val : Row ℝ → ℝ`; every such spectrum is the `s` column of some rows).  `src_linear` therefore takes the two
   spectra to be the columns `s` and `e` of the rows (two arbitrary spectra on one grid) and `withSpectrum` to put a
@@ -29,8 +38,8 @@
       model's `window` / `slice`, loop-internal values `bindown` does not return (the conjuncts about the returned value ARE
       restated, the others kept as they are, about the model).
     * `sorted_is_perm`: the source sorts columns, not rows; there is no regenerated expression for the sorted row list.
-    * the `histMeanN` conjuncts of `hist_mean` / `hist_perm_native`: the N-D (`np.digitize`) path of `util.bindown` is not
-      translated; the 1-D conjuncts are restated.
+    * `Binner.generate_spectrum_output`: no statement of C05 is about it; it is regenerated and tied for all four binner classes
+      in `Props/C16Src.lean` / `Props/C16SrcProps.lean` (generic in `self.bindown`, which is the function tied here).
     * `disjoint_bins_are_ordered`, `midpoint_bins_ordered`, `linear_grid_ordered`, `geometric_grid_ordered`, `perm_spec`:
       statements about the guard `OrderedBins` / the specification `overlapMeanSpec` only (no function of the code in the
       conclusion); the grid-family results they feed, `flux_is_overlap_mean_linear / _geometric`, are restated.
@@ -294,5 +303,150 @@ theorem src_hist_perm_native (rows₁ rows₂ : List (Row ℝ)) (hp : List.Perm 
 theorem src_native_identity (wn s w e : List ℝ) : SrcC05.nativebinner_bindown wn s w e = (wn, s, e, w) := by
   rw [src_nativebinner_bindown]
   exact native_identity _
+
+/-! ### `util.bindown` on N-D data (the `np.digitize` path) -/
+
+/-- in a strictly increasing list the elements below `x` form a prefix -/
+theorem sorted_prefix (x : ℝ) : ∀ (l : List ℝ), l.Pairwise (· < ·) →
+    (∀ j, j < l.countP (fun e => decide (e < x)) → l.getD j 0 < x) ∧
+    (∀ j, l.countP (fun e => decide (e < x)) ≤ j → j < l.length → x ≤ l.getD j 0)
+  | [], _ => ⟨fun j hj => by simp at hj, fun j _ hj => by simp at hj⟩
+  | a :: t, h => by
+    have ht := (List.pairwise_cons.1 h).2
+    have ha := (List.pairwise_cons.1 h).1
+    obtain ⟨ih1, ih2⟩ := sorted_prefix x t ht
+    by_cases hax : a < x
+    · have hc : (a :: t).countP (fun e => decide (e < x)) = t.countP (fun e => decide (e < x)) + 1 := by
+        simp [hax]
+      rw [hc]
+      refine ⟨fun j hj => ?_, fun j hj hjl => ?_⟩
+      · cases j with
+        | zero => simpa using hax
+        | succ j => simpa using ih1 j (by omega)
+      · cases j with
+        | zero => omega
+        | succ j => simpa using ih2 j (by omega) (by simpa using hjl)
+    · have h0 : t.countP (fun e => decide (e < x)) = 0 := by
+        rw [List.countP_eq_zero]
+        intro e he
+        have := ha e he
+        simp only [decide_eq_true_eq, not_lt]
+        linarith [not_lt.1 hax]
+      have hc : (a :: t).countP (fun e => decide (e < x)) = 0 := by
+        simp [hax, h0]
+      rw [hc]
+      refine ⟨fun j hj => by omega, fun j _ hjl => ?_⟩
+      cases j with
+      | zero => simpa using not_lt.1 hax
+      | succ j =>
+        have := ih2 j (by omega) (by simpa using hjl)
+        simpa using this
+
+/-- `np.digitize(x, edges, right=True) == i` for strictly increasing edges: `edges[i-1] < x <= edges[i]` -/
+theorem sorted_countP_iff (x : ℝ) (l : List ℝ) (h : l.Pairwise (· < ·)) (i : ℕ) (h1 : 1 ≤ i) (hi : i < l.length) :
+    l.countP (fun e => decide (e < x)) = i ↔ l.getD (i - 1) 0 < x ∧ x ≤ l.getD i 0 := by
+  obtain ⟨p1, p2⟩ := sorted_prefix x l h
+  constructor
+  · intro hc
+    exact ⟨p1 (i - 1) (by omega), p2 i (by omega) hi⟩
+  · rintro ⟨ha, hb⟩
+    have h3 : i - 1 < l.countP (fun e => decide (e < x)) := by
+      by_contra hcon
+      have := p2 (i - 1) (by omega) (by omega)
+      linarith
+    have h4 : ¬ i < l.countP (fun e => decide (e < x)) := by
+      intro hcon
+      have := p1 i hcon
+      linarith
+    omega
+
+/-- the consecutive pairs of an edge list, by position -/
+theorem edgePairs_map_range {β : Type} (H : ℝ → ℝ → β) : ∀ (E : List ℝ),
+    (edgePairs E).map (fun p => H p.1 p.2.1)
+      = (List.range' 1 (E.length - 1)).map (fun i => H (E.getD (i - 1) 0) (E.getD i 0))
+  | [] => rfl
+  | [_] => rfl
+  | [a, b] => rfl
+  | a :: b :: c :: t => by
+    have ih := edgePairs_map_range H (b :: c :: t)
+    simp only [edgePairs, List.map_cons, List.length_cons] at ih ⊢
+    rw [ih]
+    have hr : List.range' 1 (t.length + 1 + 1 + 1 - 1) = 1 :: List.range' 2 (t.length + 1 + 1 - 1) := by
+      simp [List.range'_succ]
+    rw [hr, List.map_cons]
+    congr 1
+    have hshift : List.range' 2 (t.length + 1 + 1 - 1) = (List.range' 1 (t.length + 1 + 1 - 1)).map (1 + ·) := by
+      rw [List.map_add_range']
+    rw [hshift, List.map_map]
+    apply List.map_congr_left
+    intro i hi
+    have hi1 : 1 ≤ i := (List.mem_range'_1.1 hi).1
+    obtain ⟨k, rfl⟩ : ∃ k, i = k + 1 := ⟨i - 1, by omega⟩
+    simp [Function.comp, Nat.add_comm 1]
+
+/-- the regenerated `util.bindown(original_bin, original_data, new_bin)` on one row of 2-D data (the `np.digitize` path;
+    `np.digitize` instantiated by `npDigitize`) -/
+noncomputable def srcHistN (rows : List (Row ℝ)) (nb : List ℝ) : List ℝ :=
+  SrcC05.util_bindown_nd (rows.map Row.c) (rows.map Row.s) nb npDigitize
+
+/-- for strictly increasing bin edges (a strictly increasing `new_bin` of at least two points) the regenerated N-D path is
+    the model's `histMeanN`: selecting the points whose `np.digitize` index is `i` selects the points in `(e_{i-1}, e_i]` -/
+theorem srcHistN_eq (rows : List (Row ℝ)) (nb : List ℝ) (hne : nb ≠ []) (hs : (histEdges nb).Pairwise (· < ·)) :
+    srcHistN rows nb = histMeanN Row.s rows nb := by
+  unfold srcHistN histMeanN
+  rw [src_util_bindown_nd rows nb hne,
+    edgePairs_map_range (fun lo hi => meanOf Row.s (rows.filter (fun r => inDigit lo hi r.c))) (histEdges nb),
+    length_histEdges nb hne, Nat.add_sub_cancel]
+  apply List.map_congr_left
+  intro i hi
+  have hi' := List.mem_range'_1.1 hi
+  congr 1
+  apply List.filter_congr
+  intro r _
+  have := sorted_countP_iff r.c (histEdges nb) hs i hi'.1 (by rw [length_histEdges nb hne]; omega)
+  rw [Bool.eq_iff_iff]
+  simp only [inDigit, Bool.and_eq_true, decide_eq_true_eq]
+  exact this
+
+/-- **hist_mean** (N-D path), about the regenerated `util.bindown`: with no native point exactly on an edge the
+    `np.digitize` path returns what the regenerated 1-D `np.histogram` path returns — for every bin the plain mean of the
+    native points strictly between its two mid-point edges -/
+theorem src_hist_mean_nd (rows : List (Row ℝ)) (nb : List ℝ) (hne : nb ≠ []) (hs : (histEdges nb).Pairwise (· < ·))
+    (hno : ∀ r ∈ rows, ∀ e ∈ histEdges nb, r.c ≠ e) :
+    srcHistN rows nb = srcHist rows nb ∧
+    srcHistN rows nb = (edgePairs (histEdges nb)).map (fun p =>
+      ((rows.filter (fun r => decide (p.1 < r.c ∧ r.c < p.2.1))).map Row.s).sum /
+        ((rows.filter (fun r => decide (p.1 < r.c ∧ r.c < p.2.1))).length : ℝ)) := by
+  obtain ⟨h1, h2⟩ := hist_mean Row.s rows nb hno
+  rw [srcHistN_eq rows nb hne hs, srcHist_eq rows nb hne, h2]
+  exact ⟨rfl, h1⟩
+
+/-- **hist_perm_native** (N-D path), about the regenerated `util.bindown`: independent of the order of the native points -/
+theorem src_hist_perm_native_nd (rows₁ rows₂ : List (Row ℝ)) (hp : List.Perm rows₁ rows₂) (nb : List ℝ) (hne : nb ≠ [])
+    (hs : (histEdges nb).Pairwise (· < ·)) : srcHistN rows₁ nb = srcHistN rows₂ nb := by
+  rw [srcHistN_eq rows₁ nb hne hs, srcHistN_eq rows₂ nb hne hs]
+  exact (hist_perm_native Row.s rows₁ rows₂ hp nb).2
+
+/-- target points 4, 8, 12: the edges 2, 6, 10, 14 are strictly increasing -/
+example : (histEdges ([4, 8, 12] : List ℝ)).Pairwise (· < ·) := by
+  have e : histEdges ([4, 8, 12] : List ℝ) = [2, 6, 10, 14] := by norm_num [histEdges, midPts]
+  rw [e]; norm_num
+
+/-! ### `FluxBinner.bindown` with one width for all native bins -/
+
+/-- the regenerated `FluxBinner.bindown(wngrid, spectrum, grid_width=<one number>)` returns what the array form returns for
+    the rows with every width equal to that number: every statement above about `srcBindown true` applies to it -/
+theorem src_bindown_scalar_eq (rows : List (Row ℝ)) (w : ℝ) (targets : List (TBin ℝ)) :
+    (SrcC05.fluxbinner_bindown_s (rows.map Row.c) (rows.map Row.s) w (targets.map TBin.c) (targets.map TBin.w)).2.1
+      = srcBindown true (rows.map (setWidth w)) targets := by
+  rw [src_bindown_scalar, srcBindown_eq]
+
+/-- … in particular the overlap-weighted mean, with native bins `[c - w/2, c + w/2]` -/
+theorem src_scalar_width_bins (rows : List (Row ℝ)) (w : ℝ) :
+    ∀ r ∈ nativeBins true (rows.map (setWidth w)), r.lo = r.c - w / 2 ∧ r.hi = r.c + w / 2 := by
+  intro r hr
+  simp only [nativeBins, if_true] at hr
+  obtain ⟨r0, _, rfl⟩ := List.mem_map.1 ((Np.mem_sortBy Row.c r _).1 hr)
+  exact ⟨rfl, rfl⟩
 
 end Taurex.C05SrcProps
